@@ -91,7 +91,8 @@ theorem disconnect_hold (env : Env) (d : Nat) (lo : Option String) (c : Conn) (h
     cases lo with
     | none => exact tail _ hI1
     | some text =>
-      exact Hold.seq (sendMsg_hold env _ _ hI1 (isNew_logout text)) (fun _ c1 hI2 _ => tail c1 hI2)
+      exact Hold.seq (Hold.swallow (Hold.true_of (sendMsg_hold env _ _ hI1 (isNew_logout text))) (fun _ _ => trivial))
+        (fun _ c1 hI2 _ => tail c1 hI2)
   · intro h; exact Hold.pure hI (by omega)
 
 /-- the journal part of `set_seq_num` is a no-op on the outbound side when the counter is unchanged -/
